@@ -31,12 +31,14 @@ ascent::ascent! {
    relation o111(i32, i32, i32);
    relation nr(i32, i32, i32);
    relation cnt(i32, i32);
+   relation indeg(i32, i32, i32);
    step(0);
    step(((*i) + 1)) <-- step(i), if ((*i) < 2);
    step(0) <-- r(_, _, _), never();
    dom(x) <-- for x in (0)..(3);
    kd(k) <-- for k in (0)..(2);
    r(k, x, y) <-- step(i), sched(i, k, x, y);
+   r(k, x, y) <-- step(i), sched(i, k, x, y), dom(x);
    i000(k, x, y) <-- r(k, x, y);
    r(k, x, y) <-- i000(k, x, y), never();
    o000(k, x, y) <-- r(k, x, y);
@@ -63,6 +65,7 @@ ascent::ascent! {
    o111(k, x, y) <-- kd(k), dom(x), dom(y), r(k, x, y);
    nr(k, x, y) <-- kd(k), dom(x), dom(y), !r(k, x, y);
    cnt(k, (n as i32)) <-- kd(k), agg n = ascent::aggregators::count() in r(k, _, _);
+   indeg(k, y, (n as i32)) <-- kd(k), dom(y), agg n = ascent::aggregators::count() in r(k, _, y);
 }
 
 pub struct D(Prog);
@@ -92,6 +95,7 @@ impl Driven for D {
          "o111" => { self.0.o111.push((row[0].as_i64().unwrap() as i32, row[1].as_i64().unwrap() as i32, row[2].as_i64().unwrap() as i32,)); },
          "nr" => { self.0.nr.push((row[0].as_i64().unwrap() as i32, row[1].as_i64().unwrap() as i32, row[2].as_i64().unwrap() as i32,)); },
          "cnt" => { self.0.cnt.push((row[0].as_i64().unwrap() as i32, row[1].as_i64().unwrap() as i32,)); },
+         "indeg" => { self.0.indeg.push((row[0].as_i64().unwrap() as i32, row[1].as_i64().unwrap() as i32, row[2].as_i64().unwrap() as i32,)); },
          _ => panic!("verif harness: unknown relation {}", rel),
       }
    }
@@ -120,6 +124,7 @@ impl Driven for D {
          "o111" => { self.0.o111 = Default::default(); },
          "nr" => { self.0.nr = Default::default(); },
          "cnt" => { self.0.cnt = Default::default(); },
+         "indeg" => { self.0.indeg = Default::default(); },
          _ => panic!("verif harness: unknown relation {}", rel),
       }
    }
@@ -149,6 +154,7 @@ impl Driven for D {
       m.push(("o111".to_string(), rows_json(self.0.o111.iter())));
       m.push(("nr".to_string(), rows_json(self.0.nr.iter())));
       m.push(("cnt".to_string(), rows_json(self.0.cnt.iter())));
+      m.push(("indeg".to_string(), rows_json(self.0.indeg.iter())));
       Value::Obj(m)
    }
    fn summary(&self) -> String { Prog::summary().to_string() }
